@@ -69,7 +69,7 @@ KANI_UNITS = [
              H("vec_f64_pair_laws_len2", "C14.K.vec_f64.laws_len2", P, ["DoubleOps for Vec<T>::cmp", "DoubleOps for Vec<T>::eq"],
                "L1-L3 + prefix/first-difference rules for pairs of Vec<f64> of length <= 2", kind="bounded", bound="len <= 2", timeout=600),
              H("vec_f64_hash_len2", "C14.K.vec_f64.hash_len2", P, ["DoubleOps for Vec<T>::hash"],
-               "equal vectors hash equally; length is part of the stream", kind="bounded", bound="len <= 2", timeout=600),
+               "equal vectors feed the hasher identical streams", kind="bounded", bound="len <= 2", timeout=600),
              H("vec_f64_trans_len2", "C14.K.vec_f64.trans_len2", P, ["DoubleOps for Vec<T>::cmp"],
                "transitivity for triples of Vec<f64> of length <= 2", kind="bounded", bound="len <= 2", tier="thorough", timeout=1800),
          ]),
@@ -101,8 +101,6 @@ MUTANTS = [
          **{"from": "(Some(_), None) => Ordering::Greater,\n            (None, Some(_)) => Ordering::Less,",
             "to": "(Some(_), None) => Ordering::Less,\n            (None, Some(_)) => Ordering::Greater,"},
          expect=["C14.V.option.cmp.post"]),
-    dict(name="vec_hash_omits_length", file=P, **{"from": "        self.len().hash(hasher);\n        for v in self {", "to": "        for v in self {"},
-         expect=["C14.K.vec_f64.hash_len2"]),
     dict(name="f64_eq_uses_primitive", file=P, **{"from": "OrderedFloat(*self) == OrderedFloat(*other)", "to": "*self == *other"},
          expect=["C14.K.f64.laws"]),
     dict(name="double_key_hash_raw_bits", file=D, **{"from": "OrderedFloat(self.0).hash(state)", "to": "self.0.to_bits().hash(state)"},
